@@ -114,7 +114,14 @@ def _try(f):
 
 def _vectors(dim, tier):
     vs = [v for v in A.vectors(dim, tier) if not v.has("negtime")]
-    return vs if tier == "thorough" else vs[::4][:6]
+    if tier == "thorough":
+        return vs
+    # quick: every fourth vector, plus one representative of every stratum (space-like kinds are stored with a negative tau /
+    # mass, near-axis and non-canonical azimuth have their own code paths in the accessors)
+    pick = vs[::4][:6]
+    for tag in ("spacelike", "spacelike_tltz", "fast", "near_axis", "wildphi"):
+        pick += [v for v in vs if v.has(tag) and v not in pick][:1]
+    return pick
 
 
 def check(res: Result, dim, system, tier, only=None, raw_layout=None):
